@@ -333,6 +333,7 @@ type Huge struct {
 	Type      byte   `json:"type"`
 	Delivered int    `json:"delivered"`
 	Pos       string `json:"pos"` // session | startup
+	Smuggle   bool   `json:"smuggle,omitempty"`
 }
 
 func RunHuge(c Huge) core.Result {
@@ -357,6 +358,11 @@ func RunHuge(c Huge) core.Result {
 		}
 	}
 	body := filler(c.Delivered)
+	if c.Smuggle {
+		// the first bytes of the (never completed) body form a complete, valid Query followed by a
+		// Terminate: a server that does not skip the declared length would execute it
+		body = append(pgwire.Query("select SMUGGLED-"+mark), pgwire.Terminate()...)
+	}
 	var frame []byte
 	if c.Pos == "startup" {
 		frame = append([]byte{byte(c.LenWord >> 24), byte(c.LenWord >> 16), byte(c.LenWord >> 8), byte(c.LenWord)}, body...)
@@ -381,13 +387,31 @@ func RunHuge(c Huge) core.Result {
 	if lim < 4096 {
 		lim = 4096
 	}
-	bound := uint64(4*lim+2*c.Delivered) + 256<<10
+	bound := uint64(4*lim+2*len(body)) + 256<<10
 	if alloc > bound {
 		return core.Fail("C10/huge/buffered", "a message declaring %d bytes (limit %d) of which %d were delivered made the server allocate %d bytes (bound %d): oversized messages must never be buffered", c.LenWord, c.Limit, c.Delivered, alloc, bound)
 	}
 	for _, ev := range env.Trace() {
 		if ev.K == "parse" || ev.K == "stmt" {
-			return core.Fail("C10/huge/callback", "length word %d: callback %s ran", c.LenWord, ev.K)
+			return core.Fail("C10/huge/callback", "length word %d (%d body bytes delivered): callback %s(%q) ran - the body of a message that is not processed was interpreted", c.LenWord, len(body), ev.K, ev.Q)
+		}
+	}
+	if c.Pos == "session" && c.LenWord >= 4 && int64(c.LenWord)-4 > int64(c.Limit) {
+		// declared body exceeds the limit and is still being skipped: the only reply so far is the 54000 error
+		out, _, perr := pgwire.ParseStream(s.C.Output())
+		if perr == nil {
+			n := 0
+			for _, m := range out[len(out)-min(len(out), 3):] {
+				if m.Type == 'T' || m.Type == 'D' || m.Type == 'C' {
+					n++
+				}
+			}
+			if n > 0 {
+				return core.Fail("C10/huge/body-interpreted", "length word %d: the server produced query results while it should be skipping the body: %v", c.LenWord, pgwire.Briefs(out))
+			}
+		}
+		if closed, _ := s.C.ServerClosed(); closed {
+			return core.Fail("C10/huge/closed", "length word %d with only %d body bytes delivered: the server closed the connection instead of skipping the declared length", c.LenWord, len(body))
 		}
 	}
 	// the message is rejected (ErrorResponse or close) or the server keeps skipping; input ends -> handling ends
